@@ -1,1 +1,328 @@
-/- C02 — property theorems (stub: not built yet). -/
+/-
+C02 — StepMania reading places every object at the time its beat and tempos imply.
+Property theorems (helper lemmas live in `Reamber/Lemmas/SM*.lean`).  Statements are about the executable model
+`Reamber/Model/SM.lean`, which the correspondence check ties to reamber/sm/*.py on every run, stated against the
+independent denotation `Reamber/Spec/SM.lean` (`events`, `pairAll`, `denote`) and `Spec/Timing.lean: timeAt`.
+-/
+import Reamber.Lemmas.SMRows
+import Reamber.Lemmas.SMTimes
+import Reamber.Lemmas.SMText
+import Reamber.Lemmas.SMPair
+import Reamber.Props.C10
+import Reamber.Generated.SMTables
+
+namespace Reamber.C02
+
+open Reamber.Timing Reamber.SM
+
+/-- Tie to the source: the constants and tables the model uses are the ones the translator read from the code
+(`SMConst`, `METRONOME`/`MAX_SNAP`/`MAX_KEYS`, `SMMapChartTypes.get_keys` over every constant, the tag → attribute
+table of `_read_metadata`, the plain string lines of `_write_metadata`). Re-checked whenever they change. -/
+theorem tables_tie :
+    [hitChar] = Generated.SM.hitString ∧ [holdHeadChar] = Generated.SM.holdStringHead ∧
+    [holdTailChar] = Generated.SM.holdStringTail ∧ [liftChar] = Generated.SM.liftString ∧
+    [keysoundChar] = Generated.SM.keysoundString ∧ [fakeChar] = Generated.SM.fakeString ∧
+    [mineChar] = Generated.SM.mineString ∧ [rollHeadChar] = Generated.SM.rollStringHead ∧
+    [rollTailChar] = Generated.SM.rollStringTail ∧
+    SM.metronome = Generated.SM.metronome ∧ maxSnap = Generated.SM.maxSnap ∧ maxKeys = Generated.SM.maxKeys ∧
+    keyTable = Generated.SM.keyTable ∧
+    (∀ t ∈ Generated.SM.chartTypes, getKeys t = Generated.SM.keyTable.lookup t) ∧
+    stringTags = Generated.SM.readStringTags ∧
+    writeStringTags = Generated.SM.writeLines.filter (fun p => !p.2.isEmpty) := by
+  decide +kernel
+
+/-- the note symbols of the source are the StepMania symbols of the specification -/
+theorem symbols_tie :
+    symOf hitChar = some (.tap .hit) ∧ symOf mineChar = some (.tap .mine) ∧ symOf liftChar = some (.tap .lift) ∧
+    symOf fakeChar = some (.tap .fake) ∧ symOf keysoundChar = some (.tap .keysound) ∧
+    symOf holdHeadChar = some (.head .hold) ∧ symOf rollHeadChar = some (.head .roll) ∧
+    symOf holdTailChar = some .tail ∧ symOf rollTailChar = some .tail := by decide
+
+/-! ### row positions -/
+
+/-- **Row position** (every measure length `R = 4k`, every row): the reader's `int(beat·len/4)` slicing with
+`Fraction(i, len(beat_str))` visits the rows in file order and gives row `r` the position `Snap(m, 4r/R, 4)`. -/
+theorem row_position (m : Nat) (rows : List Str) (h4 : 4 ∣ rows.length) :
+    rowSnaps m rows =
+      rows.zipIdx.map fun (ri : Str × Nat) =>
+        ((⟨(m : Int), 4 * (ri.2 : Rat) / (rows.length : Rat), some 4⟩ : Snap), ri.1) :=
+  SM.row_position m rows h4
+
+/-- the excluded case `R = 6`: the reader's positions are 0, 1, 3/2, 2, 3, 7/2 — not 4r/6 (a domain restriction
+of the property, not a finding) -/
+theorem row_position_counterexample :
+    (rowSnaps 0 [['1'], ['1'], ['1'], ['1'], ['1'], ['1']]).map (fun p => p.1.beat) = [0, 1, 3/2, 2, 3, 7/2] ∧
+    (List.range 6).map (fun r => (4 * (r : Rat) / 6)) = [0, 2/3, 4/3, 2, 8/3, 10/3] :=
+  SM.row_position_counterexample
+
+/-- **The reader's visits are the specification's events**: for note data whose measures all have a multiple-of-4
+number of rows, the flattened nested loops of `_read_notes`, seen through the StepMania symbol table, are exactly
+`(column, 4m + 4r/R, symbol)` for every symbol of row `r` of measure `m`. -/
+theorem reader_events_eq_spec (ms : List (List Str)) (h4 : ∀ rows ∈ ms, 4 ∣ rows.length) :
+    specEventsOf (eventsOf ms) = events ms :=
+  SM.reader_events_eq_spec ms h4
+
+example : (4 : Nat) ∣ ([['1','0'], ['0','0'], ['0','M'], ['0','0']] : List Str).length := by decide
+
+/-! ### pairing -/
+
+/-- **Pairing refinement** (well-bracketed columns).  For every sequence of loop visits with columns below
+`MAX_KEYS`: if the StepMania rule "a `3` closes the latest unclosed `2`/`4` of its column" (`pairAll`) never meets a
+tail without an open head nor a head opened over an open one, and leaves no head open, then the reader's loop
+(`holds[col][-1]` first, then `rolls[col][-1]`) does not raise, closes every head and yields exactly the same notes
+(kind, column, head and tail position) as a multiset. -/
+theorem pairing_spec (evs : List Ev) (hcol : ∀ e ∈ evs, e.col < maxKeys)
+    (hok : (pairAll (specEventsOf evs)).ok = true) (hclosed : (pairAll (specEventsOf evs)).opened = []) :
+    ∃ st, runEvents evs {} = .ok st ∧
+      (∀ p ∈ st.holds, p.tail.isSome = true) ∧ (∀ p ∈ st.rolls, p.tail.isSome = true) ∧
+      (pairAll (specEventsOf evs)).notes.Perm (modelNotes st) :=
+  SM.pairing_spec evs hcol hok hclosed
+
+/-- **Reader = denotation on the note data** (rows → objects with positions): for measures with a multiple-of-4
+number of rows, rows no longer than `MAX_KEYS`, and well-bracketed columns, the parsing loop succeeds and its
+stored objects are — as a multiset of (kind, column, beat, end beat) — the notes of the specification
+(`events` with `4m + 4r/R`, `pairAll`).  Combines `row_position`/`reader_events_eq_spec` with `pairing_spec`. -/
+theorem reader_notes_eq_spec (ms : List (List Str)) (h4 : ∀ rows ∈ ms, 4 ∣ rows.length)
+    (hcol : ∀ e ∈ eventsOf ms, e.col < maxKeys)
+    (hok : (pairAll (events ms)).ok = true) (hclosed : (pairAll (events ms)).opened = []) :
+    ∃ st, runEvents (eventsOf ms) {} = .ok st ∧
+      (∀ p ∈ st.holds, p.tail.isSome = true) ∧ (∀ p ∈ st.rolls, p.tail.isSome = true) ∧
+      (pairAll (events ms)).notes.Perm (modelNotes st) := by
+  rw [← SM.reader_events_eq_spec ms h4] at hok hclosed ⊢
+  exact SM.pairing_spec (eventsOf ms) hcol hok hclosed
+
+example :
+    let ms : List (List Str) := [[['2','0'], ['0','M'], ['3','4'], ['1','3']]]
+    (∀ rows ∈ ms, 4 ∣ rows.length) ∧ (pairAll (events ms)).ok = true ∧ (pairAll (events ms)).opened = [] ∧
+      (pairAll (events ms)).notes.length = 4 := by decide +kernel
+
+/-! ### times -/
+
+theorem dedup_subset (l : List Snap) : ∀ x ∈ dedupSnaps l, x ∈ l := by
+  induction l with
+  | nil => intro x hx; cases hx
+  | cons a t ih =>
+    intro x hx
+    simp only [dedupSnaps, List.mem_cons, List.mem_filter] at hx
+    rcases hx with rfl | ⟨h, _⟩
+    · simp
+    · exact List.mem_cons_of_mem _ (ih x h)
+
+/-- every position the loops visit has a non-negative measure and beat -/
+theorem eventsOf_nonneg (ms : List (List Str)) : ∀ e ∈ eventsOf ms, 0 ≤ e.pos.measure ∧ 0 ≤ e.pos.beat := by
+  intro e he
+  simp only [eventsOf, rowSnaps, rowEvents, List.mem_flatMap, List.mem_map] at he
+  obtain ⟨rm, _, sr, ⟨b, _, ri, _, rfl⟩, ci, _, rfl⟩ := he
+  refine ⟨by simp, ?_⟩
+  simp only
+  positivity
+
+theorem charStep_seen {st st' : PState} {col : Nat} {ch : Char} {sn : Snap} (P : Snap → Prop)
+    (h : charStep st col ch sn = .ok st') (hs : ∀ s ∈ st.seen, P s) (hp : P sn) : ∀ s ∈ st'.seen, P s := by
+  have hcons : ∀ s ∈ sn :: st.seen, P s := by
+    intro s hm
+    rcases List.mem_cons.mp hm with rfl | hm
+    · exact hp
+    · exact hs s hm
+  unfold charStep at h
+  split at h
+  · cases h; exact hs
+  · simp only at h
+    repeat' split at h
+    all_goals first
+      | (cases h; exact hcons)
+      | cases h
+
+theorem runEvents_seen (P : Snap → Prop) (evs : List Ev) (st st' : PState) (h : runEvents evs st = .ok st')
+    (hs : ∀ s ∈ st.seen, P s) (hp : ∀ e ∈ evs, P e.pos) : ∀ s ∈ st'.seen, P s := by
+  induction evs generalizing st with
+  | nil => simp [runEvents, foldlE] at h; subst h; exact hs
+  | cons e t ih =>
+    simp only [runEvents, foldlE] at h
+    cases hc : charStep st e.col e.ch e.pos with
+    | error err => simp [hc] at h
+    | ok st1 =>
+      simp only [hc] at h
+      exact ih st1 h (charStep_seen P hc hs (hp e (by simp))) (fun e' he' => hp e' (List.mem_cons_of_mem _ he'))
+
+theorem queryOk_of_nonneg (cs : List BcSnap) (h0 : firstAtZero cs = true) (q : Snap) (hm : 0 ≤ q.measure)
+    (hb : 0 ≤ q.beat) : queryOk cs q = true := by
+  cases cs with
+  | nil => simp [firstAtZero] at h0
+  | cons c rest =>
+    simp only [firstAtZero, Bool.and_eq_true, decide_eq_true_eq] at h0
+    simp only [queryOk, Snap.le, Snap.lt, Snap.eqv, h0.1, h0.2, Bool.and_eq_true, Bool.or_eq_true, decide_eq_true_eq]
+    refine ⟨?_, hb⟩
+    rcases lt_or_eq_of_le hm with h | h
+    · exact Or.inl (Or.inl h)
+    · rcases lt_or_eq_of_le hb with h' | h'
+      · exact Or.inl (Or.inr ⟨h, h'⟩)
+      · exact Or.inr ⟨h, h'⟩
+
+/-- **`sm_times` — read times = integration of the file's beat positions over its `#BPMS` segments.**
+For every note data text, every initial offset `t0 = −1000·#OFFSET`, every tempo-change list `cs` (as parsed from
+`#BPMS`) that is well-formed, ascending, starts at beat 0, is grid-compatible and keeps the 4-beat metronome
+(C10's hypotheses; a finite decimal on the 1/48-beat grid is a multiple of 1/16, hence grid-compatible — that step is not proved here, the check evaluates the domain per case), and every
+sorting permutation `np.argsort` may return for the set of distinct positions:
+if `_read_notes` returns, then its notes are exactly the positions stored by the parsing loop, each mapped
+through `timeAt t0 cs` (hold length = `timeAt` tail − `timeAt` head). -/
+theorem sm_times (σf : List Snap → List Nat) (hσ : ∀ qs, SortsAsc (σf qs) qs)
+    (data : Str) (t0 : Rat) (cs : List BcSnap) (ss : Bool)
+    (hwf : wfChanges cs = true) (hs : sortedSnaps cs = true) (h0 : firstAtZero cs = true)
+    (hgc : gridCompatible (grid defaultMaxDiv) cs = true) (hm : metronomeOk cs = true)
+    (bpms : List (Rat × Rat)) (notes : List Note)
+    (h : readNotesWith σf data (some t0) (some cs) ss = .ok (bpms, notes)) :
+    ∃ st, parseNotes data = .ok st ∧ expandWith (timeAt t0 cs) st = .ok notes := by
+  unfold readNotesWith at h
+  simp only [Option.getD_some, bind, Except.bind, Option.isNone_some, Bool.false_eq_true, ↓reduceIte] at h
+  cases htm : fromBcSnapNoReseat t0 cs with
+  | error e => simp [htm] at h
+  | ok tm =>
+    simp only [htm] at h
+    cases htr : fromBcSnap t0 cs true with
+    | error e => simp [htr] at h
+    | ok tmR =>
+      simp only [htr] at h
+      cases hst : parseNotes data with
+      | error e => simp [hst] at h
+      | ok st =>
+        simp only [hst] at h
+        refine ⟨st, rfl, ?_⟩
+        have hpos : PosIn st := runEvents_posIn _ _ _ hst posIn_init
+        have hnn : ∀ s ∈ st.seen, 0 ≤ s.measure ∧ 0 ≤ s.beat :=
+          runEvents_seen (fun s => 0 ≤ s.measure ∧ 0 ≤ s.beat) _ _ _ hst (by simp) (eventsOf_nonneg _)
+        obtain ⟨tm', htm', hoff⟩ := offsets_correct_default t0 cs hwf hs h0 hgc hm
+          (σf (dedupSnaps st.seen.reverse)) (dedupSnaps st.seen.reverse) (hσ _)
+          (fun q hq => by
+            have hq' : q ∈ st.seen := by simpa using dedup_subset _ q hq
+            exact queryOk_of_nonneg cs h0 q (hnn q hq').1 (hnn q hq').2)
+        rw [htm] at htm'
+        cases htm'
+        simp only [hoff] at h
+        rw [expandNotes_eq (timeAt t0 cs) (timeAt_respects t0 cs) st hpos (dedupSnaps st.seen.reverse)
+          (fun s hs' => dedup_rep _ s (by simpa using hs'))] at h
+        cases hex : expandWith (timeAt t0 cs) st with
+        | error e => simp [hex] at h
+        | ok ns =>
+          simp only [hex] at h
+          split at h
+          · cases h
+          · cases h; rfl
+
+theorem tmTail_bpms (T : Rat) (cur : BcSnap) (rest : List BcSnap) : (tmTail T cur rest).map (·.bpm) = rest.map (·.bpm) := by
+  induction rest generalizing T cur with
+  | nil => rfl
+  | cons n r ih => simp [tmTail, ih]
+
+theorem tmOf_bpms (t0 : Rat) (cs : List BcSnap) : (tmOf t0 cs).map (·.bpm) = cs.map (·.bpm) := by
+  cases cs with
+  | nil => rfl
+  | cons c rest => simp [tmOf, tmTail_bpms]
+
+/-! ### tempo list -/
+
+/-- **`tempo_list_keeps_times_partial`** — every `#BPMS` change is in the chart's tempo list at its millisecond
+position.  Proved here for tempo changes that all lie on measure lines: the reseating step is then skipped and the
+tempo list is the list of `(timeAt t0 cs (position of change i), bpm i)`.
+Full statement (not proved here): the same for changes on the 1/48-beat grid inside measures — that needs the
+loop invariant of `reseat_bpm_changes_snap` (C11 `reseat_keeps_times`); the check evaluates it on every case. -/
+theorem tempo_list_keeps_times_partial (σf : List Snap → List Nat) (data : Str) (t0 : Rat) (cs : List BcSnap) (ss : Bool)
+    (hwf : wfChanges cs = true) (hs : sortedSnaps cs = true) (h0 : firstAtZero cs = true)
+    (hline : ∀ c ∈ cs, c.snap.beat = 0)
+    (bpms : List (Rat × Rat)) (notes : List Note)
+    (h : readNotesWith σf data (some t0) (some cs) ss = .ok (bpms, notes)) :
+    bpms.map (·.1) = changeTimes t0 cs ∧ bpms.map (·.2) = cs.map (·.bpm) := by
+  have hno : (cs.any fun b => decide (b.snap.beat ≠ 0)) = false := by
+    rw [List.any_eq_false]
+    intro c hc
+    simp [hline c hc]
+  have htr : fromBcSnap t0 cs true = .ok (tmOf t0 cs) := by
+    unfold fromBcSnap
+    rw [sortBcSnap_eq_self hs]
+    cases cs with
+    | nil => simp [firstAtZero] at h0
+    | cons c rest =>
+      simp only [firstAtZero, Bool.and_eq_true, decide_eq_true_eq] at h0
+      have := fromBcSnapNoReseat_eq t0 (c :: rest) hwf hs (by simp [firstAtZero, h0.1, h0.2])
+      simp [h0.1, h0.2, this]
+      intro x hx hne
+      exact absurd (hline x (List.mem_cons_of_mem _ hx)) hne
+  unfold readNotesWith at h
+  simp only [Option.getD_some, bind, Except.bind, Option.isNone_some, Bool.false_eq_true, ↓reduceIte] at h
+  rw [fromBcSnapNoReseat_eq t0 cs hwf hs h0, htr] at h
+  simp only at h
+  have hb : bpms = (tmOf t0 cs).map (fun b => (b.offset, b.bpm)) := by
+    repeat' split at h
+    all_goals first
+      | (cases h; rfl)
+      | cases h
+  subst hb
+  refine ⟨?_, ?_⟩
+  · rw [List.map_map]
+    exact stored_times_eq_changeTimes t0 cs hwf hs
+  · rw [List.map_map]
+    exact tmOf_bpms t0 cs
+
+/-! ### charts and their headers (text level) -/
+
+/-- **Every chart is returned, each read from its own token** (any number of charts): for a text
+`";".join(toks)`, if it reads, the number of charts is the number of `#NOTES` tokens and chart `i` is `SMMap.read`
+of the `i`-th `#NOTES` token with the file's offset and tempo list. -/
+theorem read_charts_each (toks : List Str) (hne : toks ≠ []) (hsemi : ∀ t ∈ toks, ';' ∉ t) (ms : MapSet)
+    (h : read (joinWith [';'] toks) = .ok ms) :
+    ms.charts.length = (notesTokens toks).length ∧
+    ∃ st, foldlE metaLine {} (metaTokens toks) = .ok st ∧ ms.hdr = st.hdr ∧
+      ∀ i (hi : i < (notesTokens toks).length) (hc : i < ms.charts.length),
+        readMap st.hdr.offset st.bcs st.stopsSeen (notesTokens toks)[i] = .ok ms.charts[i] :=
+  SM.read_charts_each toks hne hsemi ms h
+
+/-- **Each chart's own five header fields**: a `#NOTES` token `pre:type:desc:diff:meter:radar:data` (no `:` inside
+the pieces) that reads gives the chart whose type / description / difficulty are the stripped parameters 1–3,
+whose meter is `int(parameter 4)`, whose radar is the floats of parameter 5, and whose objects and tempo list
+come from `data`. -/
+theorem chart_own_header (t0 : Option Rat) (bcs : Option (List BcSnap)) (ss : Bool)
+    (pre ct ds df mv rv data : Str) (hc : ∀ p ∈ [pre, ct, ds, df, mv, rv, data], ':' ∉ p) (c : Chart)
+    (h : readMap t0 bcs ss (joinWith [':'] [pre, ct, ds, df, mv, rv, data]) = .ok c) :
+    c.chartType = strip ct ∧ c.description = strip ds ∧ c.difficulty = strip df ∧
+    parseInt mv = .ok c.difficultyVal ∧ mapE parseFloat (splitOn ',' (strip rv)) = .ok c.groove ∧
+    readNotes data t0 bcs ss = .ok (c.bpms, c.notes) :=
+  SM.readMap_fields t0 bcs ss pre ct ds df mv rv data hc c h
+
+/-! ### known findings (open): counterexamples on the model -/
+
+def textNoStops : Str :=
+  ['#','O','F','F','S','E','T',':','0',';','#','B','P','M','S',':','0','=','1','2','0',';','#','N','O','T','E','S',':','d','a','n','c','e','-','s','i','n','g','l','e',':',':',':','1',':','0',':','1','0','0','0','\n','0','0','0','0','\n','0','0','0','0','\n','0','0','0','0',';']
+def textCommentColon : Str :=
+  ['#','O','F','F','S','E','T',':','0',';','#','B','P','M','S',':','0','=','1','2','0',';','#','S','T','O','P','S',':',';','#','N','O','T','E','S',':','d','a','n','c','e','-','s','i','n','g','l','e',':',':',':','1',':','0',':','1','0','0','0','\n','0','1','0','0','\n','/','/',' ','a',':','b','\n','0','0','1','0','\n','0','0','0','1',';']
+def textSample : Str :=
+  ['#','O','F','F','S','E','T',':','-','0','.','5',';','#','B','P','M','S',':','0','=','1','2','0',';','#','S','T','O','P','S',':',';','#','N','O','T','E','S',':','d','a','n','c','e','-','s','i','n','g','l','e',':','d',':','H','a','r','d',':','5',':','0',',','0',':','1','0','0','0','\n','0','1','0','0','\n','0','0','1','0','\n','0','0','0','1','\n',',','\n','2','0','0','0','\n','0','0','0','0','\n','3','0','0','0','\n','0','0','0','0',';']
+
+/-- **DSM1**: a text with no `#STOPS` tag: by the StepMania rules it has one chart with one tap
+(`denote`), the reader raises (`stops.sorted` on `None`, AttributeError → class `other`). -/
+theorem no_stops_tag_counterexample :
+    read textNoStops = .error (.py .other) ∧
+    (denote textNoStops).map (fun d => (d.stopsPresent, d.charts.map (fun c => c.notes.length))) = some (false, [1]) := by
+  decide +kernel
+
+/-- **DSM2**: a comment whose text contains ':' inside a chart: by the StepMania rules (comments are removed
+first) the chart has 4 taps; the reader returns only the 2 after the comment. -/
+theorem comment_colon_counterexample :
+    (read textCommentColon).toOption.map (fun ms => ms.charts.map (fun c => c.notes.length)) = some [2] ∧
+    (denote textCommentColon).map (fun d => d.charts.map (fun c => c.notes.length)) = some [4] := by
+  decide +kernel
+
+/-- non-vacuity of the whole chain on a concrete text (a hold, two measures): the model reads it, the denotation is
+defined and inside the property's domain, and both give the same objects and times -/
+example :
+    (read textSample).toOption.map (fun ms => ms.charts.map (fun c => c.notes.map (fun n => (n.col, n.time, n.length))))
+      = some [[(0, 500, 0), (1, 1000, 0), (2, 1500, 0), (3, 2000, 0), (0, 2500, 1000)]] := by
+  decide +kernel
+
+example :
+    (denote textSample).map (fun d => d.charts.map (fun c =>
+        (timedNotes (-1/2) [(0, 120)] c).map (fun n => (n.col, n.time, n.length))))
+      = some [[(0, 500, 0), (1, 1000, 0), (2, 1500, 0), (3, 2000, 0), (0, 2500, 1000)]] ∧
+    (denote textSample).map (fun d => d.charts.map (fun c => c.rowsMult4 && c.wellBracketed)) = some [true] := by
+  decide +kernel
+
+end Reamber.C02
